@@ -4,16 +4,18 @@ From Coq Require Import Lia Permutation Sorting.Sorted.
 From RV Require Import Term.Model Term.Proofs Term.Sort.
 Local Open Scope N_scope.
 
-Inductive skey := KNon (r : N) (s : str) | KBool (b : bool) | KInt (z : Z) | KStr (l : option str) (lex : str).
+(* KNum m e: the number m / 10^e (integers and decimals together) *)
+Inductive skey := KNon (r : N) (s : str) | KBool (b : bool) | KNum (m : Z) (e : N) | KStr (l : option str) (lex : str).
 
 Definition skey_of (t : term) : skey :=
   match t with
-  | Lit lex dt lang => match lit_class lex dt lang with CInt z => KInt z | CBool b => KBool b | _ => KStr (lang_key lang) lex end
+  | Lit lex dt lang => match lit_class lex dt lang with CNum m e => KNum m e | CBool b => KBool b | _ => KStr (lang_key lang) lex end
   | _ => KNon (rank (kind_of t)) (term_str t)
   end.
 
-(* non-literals by (kind, string), then booleans (false < true), integers by value, strings by (tag, lexical form):
-   the three datatype IRIs ...#boolean < ...#integer < ...#string order the literal families *)
+(* non-literals by (kind, string), then booleans (false < true), numbers (xsd:integer and xsd:decimal together, by
+   exact value), strings by (tag, lexical form): the datatype IRIs ...#boolean < ...#decimal, ...#integer < ...#string
+   order the literal families, numbers among themselves go through the numeric fast path *)
 Definition key_lt (a b : skey) : bool :=
   match a, b with
   | KNon r s, KNon r' s' => N.ltb r r' || (N.eqb r r' && str_ltb s s')
@@ -22,9 +24,9 @@ Definition key_lt (a b : skey) : bool :=
   | KBool b, KBool b' => negb b && b'
   | KBool _, _ => true
   | _, KBool _ => false
-  | KInt z, KInt z' => Z.ltb z z'
-  | KInt _, KStr _ _ => true
-  | KStr _ _, KInt _ => false
+  | KNum m e, KNum m' e' => num_ltb m e m' e'
+  | KNum _ _, KStr _ _ => true
+  | KStr _ _, KNum _ _ => false
   | KStr l x, KStr l' x' => skey_ltb l x l' x'
   end.
 
@@ -37,18 +39,21 @@ Qed.
 Lemma olang_asym : forall a b, olang_ltb a b = true -> olang_ltb b a = false.
 Proof. destruct a, b; simpl; intros; try discriminate; auto using str_ltb_asym. Qed.
 
+Lemma pow10_pos : forall e : N, (0 < 10 ^ Z.of_N e)%Z.
+Proof. intro e. apply Z.pow_pos_nonneg; lia. Qed.
+
 Lemma key_lt_irrefl : forall a, key_lt a a = false.
 Proof.
   destruct a; simpl.
   - rewrite N.ltb_irrefl, N.eqb_refl, str_ltb_irrefl. reflexivity.
   - destruct b; reflexivity.
-  - apply Z.ltb_irrefl.
+  - unfold num_ltb. apply Z.ltb_irrefl.
   - apply skey_ltb_irrefl.
 Qed.
 
 Lemma key_lt_trans : forall a b c, key_lt a b = true -> key_lt b c = true -> key_lt a c = true.
 Proof.
-  destruct a as [r s|q|z|l x], b as [r' s'|q'|z'|l' x'], c as [r'' s''|q''|z''|l'' x'']; simpl; intros H1 H2;
+  destruct a as [r s|q|z e|l x], b as [r' s'|q'|z' e'|l' x'], c as [r'' s''|q''|z'' e''|l'' x'']; simpl; intros H1 H2;
     try discriminate; auto.
   - apply orb_true_iff in H1. apply orb_true_iff in H2. apply orb_true_iff.
     destruct H1 as [H1|H1], H2 as [H2|H2].
@@ -58,19 +63,26 @@ Proof.
     + apply andb_true_iff in H1 as [E1 A]. apply andb_true_iff in H2 as [E2 B].
       apply N.eqb_eq in E1, E2. subst. right. rewrite N.eqb_refl. simpl. eauto using str_ltb_trans.
   - destruct q, q', q''; simpl in *; congruence.
-  - apply Z.ltb_lt in H1, H2. apply Z.ltb_lt. lia.
+  - unfold num_ltb in *. apply Z.ltb_lt in H1, H2. apply Z.ltb_lt.
+    pose proof (pow10_pos e). pose proof (pow10_pos e'). pose proof (pow10_pos e''). nia.
   - eauto using skey_ltb_trans.
 Qed.
 
-(* the order is total on keys *)
-Lemma key_lt_total : forall a b, key_lt a b = false -> key_lt b a = false -> a = b.
+(* the order is total on keys: two keys neither of which is less are the same key - or two spellings of one number *)
+Definition key_eqv (a b : skey) : Prop :=
+  match a, b with
+  | KNum m e, KNum m' e' => (m * 10 ^ Z.of_N e' = m' * 10 ^ Z.of_N e)%Z
+  | _, _ => a = b
+  end.
+
+Lemma key_lt_total : forall a b, key_lt a b = false -> key_lt b a = false -> key_eqv a b.
 Proof.
-  destruct a as [r s|q|z|l x], b as [r' s'|q'|z'|l' x']; simpl; intros H1 H2; try discriminate.
+  destruct a as [r s|q|z e|l x], b as [r' s'|q'|z' e'|l' x']; simpl; intros H1 H2; try discriminate.
   - apply orb_false_iff in H1 as [A1 B1]. apply orb_false_iff in H2 as [A2 B2].
     apply N.ltb_ge in A1, A2. assert (r = r') by lia. subst. rewrite N.eqb_refl in *. simpl in *.
     destruct (str_ltb_total s s') as [H|[H|H]]; congruence.
   - destruct q, q'; simpl in *; congruence.
-  - apply Z.ltb_ge in H1, H2. f_equal. lia.
+  - unfold num_ltb in *. apply Z.ltb_ge in H1, H2. lia.
   - unfold skey_ltb in *. apply orb_false_iff in H1 as [A1 B1]. apply orb_false_iff in H2 as [A2 B2].
     pose proof (olang_total _ _ A1 A2). subst. rewrite ostr_eqb_refl in *. simpl in *.
     destruct (str_ltb_total x x') as [H|[H|H]]; congruence.
@@ -81,7 +93,13 @@ Proof.
   intros a b c H1 H2. destruct (key_lt a c) eqn:E; auto.
   destruct (key_lt b a) eqn:E2.
   - rewrite (key_lt_trans _ _ _ E2 E) in H2. discriminate.
-  - pose proof (key_lt_total _ _ H1 E2). subst. congruence.
+  - pose proof (key_lt_total _ _ H1 E2) as T.
+    destruct a as [r s|q|z e|l x], b as [r' s'|q'|z' e'|l' x']; cbn [key_eqv] in T;
+      try (subst; congruence); try discriminate T.
+    (* two spellings of one number *)
+    destruct c as [r'' s''|q''|z'' e''|l'' x'']; simpl in *; try congruence.
+    unfold num_ltb in *. apply Z.ltb_lt in E. apply Z.ltb_ge in H2.
+    pose proof (pow10_pos e). pose proof (pow10_pos e'). pose proof (pow10_pos e''). nia.
 Qed.
 
 (* --- term_lt is key_lt through skey_of --- *)
@@ -96,14 +114,24 @@ Lemma bool_before_all :
   /\ str_eqb xsd_boolean xsd_string = false /\ str_eqb xsd_string xsd_boolean = false.
 Proof. vm_compute. repeat split; reflexivity. Qed.
 
+Lemma num_dt_facts : forall d, d = xsd_integer \/ d = xsd_decimal ->
+  str_ltb d xsd_string = true /\ str_ltb xsd_string d = false /\ str_eqb d xsd_string = false /\ str_eqb xsd_string d = false
+  /\ str_ltb xsd_boolean d = true /\ str_ltb d xsd_boolean = false /\ str_eqb d xsd_boolean = false /\ str_eqb xsd_boolean d = false.
+Proof. intros d [E|E]; subst; vm_compute; repeat split; reflexivity. Qed.
+
+Lemma class_num_facts : forall lex dt lang m e, lit_class lex dt lang = CNum m e ->
+  let d := dt_or_string dt in
+  str_ltb d xsd_string = true /\ str_ltb xsd_string d = false /\ str_eqb d xsd_string = false /\ str_eqb xsd_string d = false
+  /\ str_ltb xsd_boolean d = true /\ str_ltb d xsd_boolean = false /\ str_eqb d xsd_boolean = false /\ str_eqb xsd_boolean d = false.
+Proof.
+  intros lex dt lang m e H. apply num_dt_facts. destruct (class_num_dt _ _ _ _ _ H) as [E|E]; subst; auto.
+Qed.
+
 Lemma class_bool_dtkey : forall lex dt lang b, lit_class lex dt lang = CBool b -> dt_or_string dt = xsd_boolean.
 Proof. intros lex dt lang b H. rewrite (class_bool_dt _ _ _ _ H). reflexivity. Qed.
 
 Lemma class_str_dtkey : forall lex dt lang, lit_class lex dt lang = CStr -> dt_or_string dt = xsd_string.
 Proof. intros lex dt lang H. destruct (class_str_dt _ _ _ H); subst; reflexivity. Qed.
-
-Lemma class_int_dtkey : forall lex dt lang z, lit_class lex dt lang = CInt z -> dt_or_string dt = xsd_integer.
-Proof. intros lex dt lang z H. rewrite (class_int_dt _ _ _ _ H). reflexivity. Qed.
 
 Lemma lit_lt_str : forall lex dt lang lex' dt' lang',
   lit_class lex dt lang = CStr -> lit_class lex' dt' lang' = CStr ->
@@ -135,22 +163,22 @@ Proof.
   - (* two literals *)
     cbn [modelled] in Ma, Mb. cbn [skey_of].
     destruct bool_before_all as [B1 [B2 [B3 [B4 [B5 [B6 [B7 B8]]]]]]].
-    destruct (lit_class lex dt lang) as [|x|x|] eqn:C1; try discriminate;
-      destruct (lit_class lex' dt' lang') as [|y|y|] eqn:C2; try discriminate.
+    destruct (lit_class lex dt lang) as [|x e|x|] eqn:C1; try discriminate;
+      destruct (lit_class lex' dt' lang') as [|y e'|y|] eqn:C2; try discriminate.
     + rewrite lit_lt_str by assumption. reflexivity.
-    + cbn [term_lt]. unfold lit_gt. rewrite C1, C2.
-      rewrite (class_str_dtkey _ _ _ C1), (class_int_dtkey _ _ _ _ C2), I4, I2. reflexivity.
+    + destruct (class_num_facts _ _ _ _ _ C2) as [N1 [N2 [N3 [N4 _]]]].
+      cbn [term_lt]. unfold lit_gt. rewrite C1, C2. rewrite (class_str_dtkey _ _ _ C1), N3, N2. reflexivity.
     + cbn [term_lt]. unfold lit_gt. rewrite C1, C2.
       rewrite (class_str_dtkey _ _ _ C1), (class_bool_dtkey _ _ _ _ C2), B7, B4. reflexivity.
-    + cbn [term_lt]. unfold lit_gt. rewrite C1, C2.
-      rewrite (class_int_dtkey _ _ _ _ C1), (class_str_dtkey _ _ _ C2), I3, I1. reflexivity.
-    + cbn [term_lt]. unfold lit_gt. rewrite C1, C2. cbn [key_lt]. f_equal. apply Z.gtb_ltb.
-    + cbn [term_lt]. unfold lit_gt. rewrite C1, C2.
-      rewrite (class_int_dtkey _ _ _ _ C1), (class_bool_dtkey _ _ _ _ C2), B5, B2. reflexivity.
+    + destruct (class_num_facts _ _ _ _ _ C1) as [N1 [N2 [N3 [N4 _]]]].
+      cbn [term_lt]. unfold lit_gt. rewrite C1, C2. rewrite (class_str_dtkey _ _ _ C2), N4, N1. reflexivity.
+    + cbn [term_lt]. unfold lit_gt. rewrite C1, C2. reflexivity.
+    + destruct (class_num_facts _ _ _ _ _ C1) as [_ [_ [_ [_ [N5 [N6 [N7 N8]]]]]]].
+      cbn [term_lt]. unfold lit_gt. rewrite C1, C2. rewrite (class_bool_dtkey _ _ _ _ C2), N8, N6. reflexivity.
     + cbn [term_lt]. unfold lit_gt. rewrite C1, C2.
       rewrite (class_bool_dtkey _ _ _ _ C1), (class_str_dtkey _ _ _ C2), B8, B3. reflexivity.
-    + cbn [term_lt]. unfold lit_gt. rewrite C1, C2.
-      rewrite (class_bool_dtkey _ _ _ _ C1), (class_int_dtkey _ _ _ _ C2), B6, B1. reflexivity.
+    + destruct (class_num_facts _ _ _ _ _ C2) as [_ [_ [_ [_ [N5 [N6 [N7 N8]]]]]]].
+      cbn [term_lt]. unfold lit_gt. rewrite C1, C2. rewrite (class_bool_dtkey _ _ _ _ C1), N7, N5. reflexivity.
     + cbn [term_lt]. unfold lit_gt. rewrite C1, C2. cbn [key_lt]. rewrite andb_comm. reflexivity.
 Qed.
 
@@ -161,7 +189,8 @@ Theorem tlt_strict_weak_order :
   (forall a, tlt a a = false)
   /\ (forall a b c, tlt a b = true -> tlt b c = true -> tlt a c = true)
   /\ (forall a b c, tlt a b = false -> tlt b c = false -> tlt a c = false)      (* ties are transitive *)
-  /\ (forall a b, tlt a b = false -> tlt b a = false -> skey_of a = skey_of b).  (* a tie is: same sort key *)
+  /\ (forall a b, tlt a b = false -> tlt b a = false -> key_eqv (skey_of a) (skey_of b)).
+     (* a tie is: same sort key, or two spellings of one number (1, 1.0, 1.00) *)
 Proof.
   unfold tlt. repeat split; intros.
   - apply key_lt_irrefl.
